@@ -71,6 +71,24 @@ pub struct World {
     pub parallelism: usize,
     pub persist: bool,
     pub out: Option<OutFile>,
+    /// a second file sink: the output policy becomes `combined` of both
+    #[serde(default)]
+    pub out2: Option<OutFile>,
+    /// turn-delay access model: per-edge (arrival heading, departure heading) rows + the delay table (seconds)
+    #[serde(default)]
+    pub headings: Option<Vec<(i16, Option<i16>)>>,
+    #[serde(default)]
+    pub turn_delays: Option<Vec<(String, f64)>>,
+    /// road-class frontier model: one class per edge
+    #[serde(default)]
+    pub road_classes: Option<Vec<u8>>,
+    /// uuid output plugin (vertex i has the identifier `uuid_of(i)`)
+    #[serde(default)]
+    pub uuid_plugin: bool,
+}
+
+pub fn uuid_of(v: usize) -> String {
+    format!("node-{:04}-{}", v, (v * 7919 + 13) % 1000)
 }
 
 pub const PREEXISTING_JSON: &str = "{\"request\":{\"_old\":1},\"error\":\"left by an earlier session\"}\n";
@@ -234,6 +252,11 @@ impl World {
             parallelism: 2,
             persist: true,
             out: None,
+            out2: None,
+            headings: None,
+            turn_delays: None,
+            road_classes: None,
+            uuid_plugin: false,
         }
     }
 
@@ -254,6 +277,25 @@ impl World {
             Some(OutFile { format: OutFormat::Csv { .. }, .. }) => "/sim/out.csv".into(),
             _ => "/sim/out.json".into(),
         }
+    }
+    pub fn out2_path(&self) -> String {
+        match &self.out2 {
+            Some(OutFile { format: OutFormat::Csv { .. }, .. }) => "/sim/out2.csv".into(),
+            _ => "/sim/out2.json".into(),
+        }
+    }
+    pub fn headings_path(&self) -> String {
+        if self.gz_tables && !self.gz_misnamed { "/sim/headings.csv.gz".into() } else { "/sim/headings.csv".into() }
+    }
+    pub fn headings_csv(&self) -> String {
+        let mut s = String::from("arrival_heading,departure_heading\n");
+        for (a, d) in self.headings.iter().flatten() {
+            match d {
+                Some(d) => s.push_str(&format!("{},{}\n", a, d)),
+                None => s.push_str(&format!("{},\n", a)),
+            }
+        }
+        s
     }
 
     pub fn edges_csv(&self) -> String {
@@ -321,6 +363,27 @@ impl World {
         v.push((self.table_path("grades"), tab(&self.grades)));
         let g = self.shape(self.geoms_txt());
         v.push((self.table_path("geoms"), if self.gz_tables { gz(&g) } else { g }));
+        if self.headings.is_some() {
+            let h = self.shape(self.headings_csv());
+            v.push((self.headings_path(), if self.gz_tables { gz(&h) } else { h }));
+        }
+        if let Some(rc) = &self.road_classes {
+            let mut s = String::new();
+            for c in rc {
+                s.push_str(&format!("{}\n", c));
+            }
+            let b = self.shape(s);
+            v.push((self.table_path("classes"), if self.gz_tables { gz(&b) } else { b }));
+        }
+        if self.uuid_plugin {
+            let mut s = String::new();
+            for i in 0..self.nv() {
+                s.push_str(&uuid_of(i));
+                s.push('\n');
+            }
+            let b = self.shape(s);
+            v.push((self.table_path("uuids"), if self.gz_tables { gz(&b) } else { b }));
+        }
         v.push(("/sim/config.json".to_string(), b"{}".to_vec()));
         v
     }
@@ -440,24 +503,29 @@ impl World {
             }
             output_plugins.push(p);
         }
-        let out_policy = match (&self.out, reference) {
-            (Some(o), false) => {
-                let format = match &o.format {
-                    OutFormat::Json => json!({"type": "json", "newline_delimited": true}),
-                    OutFormat::Csv { mapping, sorted } => {
-                        let mut m = serde_json::Map::new();
-                        for (k, v) in mapping {
-                            m.insert(k.clone(), v.clone());
-                        }
-                        json!({"type": "csv", "mapping": m, "sorted": sorted})
+        if self.uuid_plugin {
+            output_plugins.push(json!({"type": "uuid", "uuid_input_file": self.table_path("uuids")}));
+        }
+        let file_policy = |o: &OutFile, path: String| -> Value {
+            let format = match &o.format {
+                OutFormat::Json => json!({"type": "json", "newline_delimited": true}),
+                OutFormat::Csv { mapping, sorted } => {
+                    let mut m = serde_json::Map::new();
+                    for (k, v) in mapping {
+                        m.insert(k.clone(), v.clone());
                     }
-                };
-                let mut p = json!({"type": "file", "filename": self.out_path(), "format": format});
-                if let Some(fr) = o.flush_rate {
-                    p["file_flush_rate"] = json!(fr);
+                    json!({"type": "csv", "mapping": m, "sorted": sorted})
                 }
-                p
+            };
+            let mut p = json!({"type": "file", "filename": path, "format": format});
+            if let Some(fr) = o.flush_rate {
+                p["file_flush_rate"] = json!(fr);
             }
+            p
+        };
+        let out_policy = match (&self.out, &self.out2, reference) {
+            (Some(o), None, false) => file_policy(o, self.out_path()),
+            (Some(o), Some(o2), false) => json!({"type": "combined", "policies": [file_policy(o, self.out_path()), file_policy(o2, self.out2_path())]}),
             _ => json!({"type": "none"}),
         };
         let mut cfg = json!({
@@ -477,6 +545,17 @@ impl World {
         }
         if !self.weights.is_empty() {
             cfg["cost"] = json!({"cost_aggregation": "sum", "weights": weights, "vehicle_rates": rates});
+        }
+        if let (Some(_), Some(t)) = (&self.headings, &self.turn_delays) {
+            let mut table = serde_json::Map::new();
+            for (k, d) in t {
+                table.insert(k.clone(), json!(d));
+            }
+            cfg["access"] = json!({"type": "turn_delay", "edge_heading_input_file": self.headings_path(),
+                "turn_delay_model": {"type": "tabular_discrete", "time_unit": "seconds", "table": table}});
+        }
+        if self.road_classes.is_some() {
+            cfg["frontier"] = json!({"type": "road_class", "road_class_input_file": self.table_path("classes")});
         }
         cfg
     }
